@@ -1037,7 +1037,7 @@ class Parser:
 
     def index_call(self, source_object: BaseNode) -> IndexNode:
         lbracket = self.create_node(SymbolNode, self.previous)
-        index_statement = self.statement()
+        index_statement = self.operand(self.statement())
         self.expect('rbracket')
         rbracket = self.create_node(SymbolNode, self.previous)
         return self.create_node(IndexNode, source_object, lbracket, index_statement, rbracket)
@@ -1057,14 +1057,14 @@ class Parser:
 
         self.expect('colon')
         colon = self.create_node(SymbolNode, self.previous)
-        items = self.statement()
+        items = self.operand(self.statement())
         block = self.codeblock()
         endforeach = self.create_node(SymbolNode, self.current)
         return self.create_node(ForeachClauseNode, foreach_, varnames, commas, colon, items, block, endforeach)
 
     def ifblock(self) -> IfClauseNode:
         if_node = self.create_node(SymbolNode, self.previous)
-        condition = self.statement()
+        condition = self.operand(self.statement())
         clause = self.create_node(IfClauseNode, condition)
         self.expect('eol')
         block = self.codeblock()
@@ -1077,7 +1077,7 @@ class Parser:
     def elseifblock(self, clause: IfClauseNode) -> None:
         while self.accept('elif'):
             elif_ = self.create_node(SymbolNode, self.previous)
-            s = self.statement()
+            s = self.operand(self.statement())
             self.expect('eol')
             b = self.codeblock()
             clause.ifs.append(self.create_node(IfNode, s, elif_, s, b))
